@@ -27,7 +27,7 @@ sys.path.insert(0, os.path.join(verif.ROOT, "translate"))
 import api_table  # noqa: E402
 
 LEVEL = "proof"
-PROPS = ["GeosModel.Props.C12", "GeosModel.Props.C12Ctor"]
+PROPS = ["GeosModel.Props.C12", "GeosModel.Props.C12Ctor", "GeosModel.Props.C12Tree"]
 GENERATED = os.path.join(verif.LEAN, "GeosModel", "Generated", "Api.lean")
 
 EXCLUSIONS = [
